@@ -328,26 +328,33 @@ class CSSStyleSheet(cssutils.stylesheets.StyleSheet):
         newseq = []
 
         # ['CHARSET', 'IMPORT', ('VAR', NAMESPACE'), ('PAGE', 'MEDIA', ruleset)]
-        wellformed, expected = self._parse(
-            0,
-            newseq,
-            tokenizer,
-            {
-                'S': S,
-                'COMMENT': COMMENT,
-                'CDO': lambda expected, *ignored: expected,
-                'CDC': lambda expected, *ignored: expected,
-                'CHARSET_SYM': charsetrule,
-                'FONT_FACE_SYM': fontfacerule,
-                'IMPORT_SYM': importrule,
-                'NAMESPACE_SYM': namespacerule,
-                'PAGE_SYM': pagerule,
-                'MEDIA_SYM': mediarule,
-                'VARIABLES_SYM': variablesrule,
-                'ATKEYWORD': unknownrule,
-            },
-            default=ruleset,
-        )
+        try:
+            wellformed, expected = self._parse(
+                0,
+                newseq,
+                tokenizer,
+                {
+                    'S': S,
+                    'COMMENT': COMMENT,
+                    'CDO': lambda expected, *ignored: expected,
+                    'CDC': lambda expected, *ignored: expected,
+                    'CHARSET_SYM': charsetrule,
+                    'FONT_FACE_SYM': fontfacerule,
+                    'IMPORT_SYM': importrule,
+                    'NAMESPACE_SYM': namespacerule,
+                    'PAGE_SYM': pagerule,
+                    'MEDIA_SYM': mediarule,
+                    'VARIABLES_SYM': variablesrule,
+                    'ATKEYWORD': unknownrule,
+                },
+                default=ruleset,
+            )
+        except Exception:
+            # e.g. an error raised in raising mode: reset
+            self._cssRules = oldCssRules
+            self._namespaces = oldNamespaces
+            self._updateVariables()
+            raise
 
         if wellformed:
             # use proper namespace object
